@@ -171,7 +171,9 @@ contract(FA2, "RuleDBAbstract.add", props=["C04"], verify=False,
 for _nm in ("try_verify", "_symmetry_expand"):
     contract(F, f"CombinatorialSpecificationSearcher.{_nm}", props=["C04"], verify=False, aliases=SAL,
              trusted_reason="recursion into the expansion machinery (it calls add_rule again): only its frame is used -- the class "
-                            "database only grows and keeps its invariant (each step of it is ClassDB.add/get_label/is_empty, C15)",
+                            "database only grows and keeps its invariant (each step of it is ClassDB.add/get_label/is_empty, C15). "
+                            "_symmetry_expand iterates a generator WITH side effects lazily, interleaved with its own effects: "
+                            "outside the eager-generator model (A4), hence not verified",
              params={"self": S, "comb_class": CombClass, "label": Int},
              requires=["wf(self.classdb)", "wf(self.classqueue)"], ensures=_GROW + ["wf(self.classqueue)"],
              may_raise=["StrategyDoesNotApply", "UserCodeError"],
@@ -202,3 +204,4 @@ contract(F, "CombinatorialSpecificationSearcher.add_rule", props=["C04", "C15"],
          ensures=_GROW + ["wf(self.classqueue)"],
          modifies=_CDB_MODS + _QMODS + ["self.ruledb.has_spec_now", "self.ruledb.ver", "all:Obj('AbstractRule')"],
          notes="set_empty(child, False) happens only for strategies that are not possibly_empty, under the child's own label")
+
